@@ -13,7 +13,8 @@
       labels between two await points (`advance`): rxTake; rxBegin; and an `rxOutcome panicSync` whenever the call
       just made is scripted to panic in the closure. Each fused label is an application of `Batcher.step`.
       Output: one token per op `<tag>{,<event>}|<queue_length>/<queue_full_truncated>` and a final token
-      `F:<receiver state>,<counters>`; events are `!W` (callback W ran), `~W` (callback W dropped unrun),
+      `F:<receiver state>,<counters>`; events are `!W` (flush callback W ran), `?W` (when_empty callback W ran),
+      `~W` (flush callback W dropped unrun),
       `c(X.Y.Z)` (on_batch called with [X,Y,Z]), `w<ns>` (wait requested), `done` (exec returned).
       An op that is not enabled (sender op without Sender, gate release without that gate, …) prints tag `x`.
 
@@ -54,7 +55,7 @@ def showItems (xs : List Nat) : String := ".".intercalate (xs.map toString)
 /-- Events produced by one model step = the growth of the ghost histories, in the order the code produces
     them within that step (callbacks, then the call, then the wait request, then the return). -/
 def events (s s' : St) : List String :=
-  (s'.firedTake.drop s.firedTake.length).map (fun w => s!"!{w}")
+  (s'.firedTake.drop s.firedTake.length).map (fun w => s!"?{w}")
   ++ (s'.fired.drop s.fired.length).map (fun w => s!"!{w}")
   ++ (s'.dropped.drop s.dropped.length).map (fun w => s!"~{w}")
   ++ (s'.calls.drop s.calls.length).map (fun b => s!"c({showItems b})")
@@ -151,16 +152,47 @@ def signature (s : St) (nops : Nat) : String :=
       ++ b (s.mFailed > 0) ",fail" ++ b (!s.fired.isEmpty) ",fired" ++ b (!s.firedTake.isEmpty) ",firedTake" ++ b (!s.dropped.isEmpty) ",dropped"
       ++ b (!s.senderAlive) ",closed" ++ b (s.callsPerBatch.any (· ≥ 11)) ",exhausted"
 
-def runBatcher (line : String) : String :=
+/-- Projection of the full trace onto one property's observables (mirrors `Proj` in the Rust stream):
+    event kinds kept (by first character), op tags kept, `|queue/truncated` kept, final counters kept. -/
+structure Proj where
+  events : String
+  tags : Bool
+  queue : Bool
+  counters : Bool
+
+def projFull : Proj := ⟨"!?~cwdP", true, true, true⟩
+def proj06 : Proj := ⟨"cdP", true, true, false⟩
+def proj07 : Proj := ⟨"!~cP", false, false, false⟩
+def proj08 : Proj := ⟨"!?~cwdP", false, false, true⟩
+def proj09 : Proj := ⟨"", true, true, false⟩
+
+def projectTok (p : Proj) (tok : String) : String :=
+  if tok.startsWith "F:" then
+    if p.counters then tok else (tok.splitOn ",").headD ""
+  else
+    let (body, q) := match tok.splitOn "|" with
+      | [b, q] => (b, q)
+      | _ => (tok, "")
+    let parts := body.splitOn ","
+    let tag := parts.headD ""
+    let tag' := if p.tags || tag == "x" then tag else "-"
+    let evs := parts.tail.filter fun e => match e.toList with
+      | c :: _ => p.events.toList.contains c
+      | [] => false
+    ",".intercalate (tag' :: evs) ++ (if p.queue then "|" ++ q else "")
+
+def runBatcherProj (p : Proj) (line : String) : String :=
   match Sexp.parse line with
   | some (.list [.atom "b", cap, .list (.atom "sp" :: sp), .list (.atom "ops" :: ops)]) =>
     match cap.nat?.filter (· ≥ 1), nats? sp, ops.mapM op? with
     | some cap, some sp, some ops =>
       let cfg := Cfg.real cap
       let (s, toks) := runOps cfg sp init ops []
-      " ".intercalate (toks ++ [finalTok s]) ++ "\t" ++ signature s ops.length
+      " ".intercalate ((toks ++ [finalTok s]).map (projectTok p)) ++ "\t" ++ signature s ops.length
     | _, _, _ => "bad-op"
   | _ => "bad-op"
+
+def runBatcher : String → String := runBatcherProj projFull
 
 /-! ### stream `batcher_blocking`: (bl API OP CTX RX CAP PREFILL TIMEOUT_MS) → true|false|ok|err(X)|err(noitem)|panic -/
 
@@ -211,6 +243,8 @@ def runBlocking (line : String) : String :=
   | _ => "bad-op"
 
 def streams : List (String × (String → String)) :=
-  [("batcher", runBatcher), ("batcher_blocking", runBlocking)]
+  [("batcher", runBatcher), ("batcher_c06", runBatcherProj proj06), ("batcher_c07", runBatcherProj proj07),
+   ("batcher_c08", runBatcherProj proj08), ("batcher_c09", runBatcherProj proj09),
+   ("batcher_blocking", runBlocking)]
 
 end EmitModel.Driver.Batcher
